@@ -47,7 +47,7 @@ def run(ctx):
             ok = held or L._last_body_protected(b, bid)
             ctx.ob('C17.L1', b.name, 'call of %s runs under the matched-blocks write lock' % k, ok, at=t.span,
                    directly_held=held, via_protected_caller=(not held and ok), unprotected_path=None if ok else witness.get(top))
-    ctx.floor('C17.L1', 'call sites of sync-progress mutators', nsites, 15)
+    ctx.floor('C17.L1', 'call sites of sync-progress mutators', nsites, 10)   # 15 on the reviewed tree; merging branches may legitimately lower it
     regs = [r for b in P.bodies if b.promoted is None for r in L.regions(b) if r.lock == 'L_mb' and r.mode == 'write']
     ctx.floor('C17.L1', 'matched-blocks write regions', len(regs), 6)
     # the exemption: init_genesis_block is called once, before the network service / RPC server start
